@@ -35,7 +35,7 @@ pub enum Source<'a> {
 
 /// the C18 battery: element, tuple, path, join, filter, aggregate, belief, order/limit patterns.
 /// `sorted`: the answer is a set (no ORDER BY), compared after sorting its rows.
-pub const BATTERY: [(&str, &str, &str, bool); 18] = [
+pub const BATTERY: [(&str, &str, &str, bool); 31] = [
     ("concept-default", "FIND(?e) WHERE { ?e CONCEPT {} }", "", true),
     ("concept-archived", "FIND(?e.id, ?e.name, ?e._system.version) WHERE { ?e CONCEPT {state: \"archived\"} }", "", true),
     ("concept-tombstoned", "FIND(?e.id, ?e._system.version) WHERE { ?e CONCEPT {state: \"tombstoned\"} }", "", true),
@@ -58,7 +58,39 @@ pub const BATTERY: [(&str, &str, &str, bool); 18] = [
     // predicate name that only the second environment knows (an error under the first one)
     ("env-type-name", "FIND(?c.id, ?c.name) WHERE { ?c CONCEPT {type: \"Gadget\"} }", "", true),
     ("env-predicate-name", "FIND(?p.id) WHERE { ?p PROPOSITION (?s, \"likes\", ?o) }", "", true),
+    // ---- graph walks: hop-quantified path patterns, every range shape, both directions, anchored and not.
+    // A link (or an endpoint Concept) that was active at the coordinate and was archived / tombstoned
+    // later must still carry the walk AS OF the coordinate: the candidates of a one-hop step are the
+    // Propositions whose version AT the coordinate is active, whatever their row says today.
+    ("path-1", "FIND(?a.id, ?b.id) WHERE { (?a, \"same_as\"{1,1}, ?b) }", "", true),
+    ("path-1-2", "FIND(?a.id, ?b.id) WHERE { (?a, \"same_as\"{1,2}, ?b) }", "", true),
+    ("path-0-3-from", "FIND(?a.id, ?b.id) WHERE { ?a CONCEPT {type: \"Person\"} (?a, \"same_as\"{0,3}, ?b) }", "", true),
+    ("path-2-up-from", "FIND(?a.id, ?b.id) WHERE { ?a CONCEPT {type: \"Person\"} (?a, \"same_as\"{2,}, ?b) }", "", true),
+    ("path-1-3-to", "FIND(?a.id, ?b.id) WHERE { ?b CONCEPT {type: \"Person\"} (?a, \"same_as\"{1,3}, ?b) }", "", true),
+    ("path-alt", "FIND(?a.id, ?b.id) WHERE { ?a CONCEPT {type: \"Person\"} (?a, \"same_as\"{1,2} | \"prefers\", ?b) }", "", true),
+    ("path-bound-hop", "FIND(?p.id, ?a.id, ?b.id) WHERE { ?p PROPOSITION (?a, \"same_as\"{1,1}, ?b) }", "", true),
+    ("path-names", "FIND(?a.name, ?b.name, ?b._system.state) WHERE { (?a, \"same_as\"{1,3}, ?b) }", "", true),
+    // ---- the remaining WHERE forms: structural edges, NOT, OPTIONAL, UNION, the belief slot
+    ("structural", "FIND(?e.id, ?x.id) WHERE { ?e EVIDENCE {} STRUCTURAL (?e, \"generated_by\", ?x) }", "", true),
+    ("not", "FIND(?p.id) WHERE { ?p PROPOSITION (?s, \"prefers\", ?o) NOT { ?a ASSERTION {proposition: ?p} } }", "", true),
+    ("optional", "FIND(?p.id, ?a.id, ?a.lifecycle.status) WHERE { ?p PROPOSITION (?s, ?pred, ?o) OPTIONAL { ?a ASSERTION {proposition: ?p} } }", "", true),
+    ("union", "FIND(?c.id, ?c._system.state) WHERE { ?c CONCEPT {type: \"Person\"} UNION { ?c CONCEPT {state: \"archived\"} } }", "", true),
+    ("belief-slot", "FIND(?slot.contested, ?slot.accepted) WHERE { ?slot BELIEF SLOT (?s, \"prefers\") }", "", true),
 ];
+
+/// every WHERE form of `kql/mod.rs` `apply_clause_inner` the battery exercises (the translator reads this
+/// list into `Gen/QueryForms.lean`; `check_battery_forms` verifies at start-up, with the real parser, that
+/// each name really occurs in some battery query)
+pub const BATTERY_FORMS: [&str; 12] = ["Activity", "Assertion", "Belief", "BeliefSlot", "Concept", "Evidence", "Filter", "Not", "Optional", "Proposition", "Structural", "Union"];
+
+/// the battery really contains every form it claims: parse each query, look at the WHERE clause variants
+pub fn check_battery_forms() -> Vec<String> {
+    let mut seen = String::new();
+    for (_, q, tail, _) in BATTERY {
+        if let Ok(cmd) = anda_kip::parse_kip(&format!("{q}{tail}")) { seen.push_str(&format!("{cmd:?}")); }
+    }
+    BATTERY_FORMS.iter().filter(|f| !seen.contains(&format!("{f} {{")) && !seen.contains(&format!("{f}("))).map(|f| f.to_string()).collect()
+}
 /// the pattern that also reaches `pending` shell rows (root cause F-C17-1); reported under its own key
 pub const ANYSTATE: (&str, &str) = ("concept-anystate", "FIND(?e.id, ?e._system.version) WHERE { ?e CONCEPT {state: ?s} }");
 
